@@ -1,6 +1,8 @@
 """C07 — multi-source output is a whole-line interleaving with correct attribution."""
 
 MODULE = "DtailModel.Props.C07"
+# scripts with real waits: a disagreement counts only if it reproduces when re-run alone (flake policy, DESIGN 2.3)
+TIMED_OPS = ("c07.multi",)
 GROUPS = ["C07", "C01"]
 BINS = True
 LOGGER = {"c07.multi": "none", "c07.sched": "stdout", "c07.pipe": "none"}
